@@ -30,8 +30,12 @@ func genC14(t *rapid.T) lsw.Case {
 		if rapid.IntRange(0, 9).Draw(t, "which") < 6 {
 			ops = append(ops, m.AppOp(t))
 		} else {
-			k := rapid.SampledFrom([]string{"sync", "sync", "syncwait", "lsckpt", "lsckpt", "lsckpt", "snapshot", "compact", "reattach"}).Draw(t, "lsop")
+			k := rapid.SampledFrom([]string{"sync", "sync", "syncwait", "lsckpt", "lsckpt", "lsckpt", "snapshot", "compact", "reattach", "coldrestart"}).Draw(t, "lsop")
 			switch k {
+			case "coldrestart":
+				// everything stops (the last application connection to close deletes the WAL), then starts again
+				ops = append(ops, lsw.Op{K: k, N: rapid.IntRange(0, 1).Draw(t, "lsFirst")})
+				*m = *lsw.NewGenModelKeepTables(m)
 			case "lsckpt":
 				ops = append(ops, lsw.Op{K: k, M: rapid.SampledFrom([]string{"PASSIVE", "PASSIVE", "FULL", "RESTART", "TRUNCATE"}).Draw(t, "mode")})
 			case "compact":
@@ -142,6 +146,14 @@ func execC14(c lsw.Case) (res core.Result) {
 	pts := map[int]bool{len(c.Ops) / 4: true, len(c.Ops) / 2: true, 3 * len(c.Ops) / 4: true, len(c.Ops) - 1: true}
 	for i, o := range c.Ops {
 		switch {
+		case o.K == "coldrestart":
+			if err := a.ColdRestart(true, o.N == 1); err != nil {
+				panic(fmt.Sprintf("harness: cold restart: %v", err))
+			}
+			if err := b.ColdRestart(false, false); err != nil {
+				panic(fmt.Sprintf("harness: cold restart (control): %v", err))
+			}
+			res.Labels = append(res.Labels, "cold-restart")
 		case o.K == "reattach":
 			_ = a.Detach()
 			if err := a.Attach(); err != nil {
